@@ -82,8 +82,18 @@ abbrev Suffix := List Addr
 
 def addrLe (a b : Addr) : Bool := decide (a ≤ b)
 
+/-- insertion into a sorted address list -/
+def insertAddr (a : Addr) : List Addr → List Addr
+  | [] => [a]
+  | b :: t => if addrLe a b then a :: b :: t else b :: insertAddr a t
+
+/-- `sort.Slice(addrs, bytes.Compare < 0)` (the order only has to be canonical) -/
+def sortAddrs : List Addr → List Addr
+  | [] => []
+  | a :: t => insertAddr a (sortAddrs t)
+
 /-- keys.go:120 `createRecordSuffix`. -/
-def createRecordSuffix (froms : List Addr) : Suffix := froms.mergeSort addrLe
+def createRecordSuffix (froms : List Addr) : Suffix := sortAddrs froms
 
 /-- `bytes.Compare(a, b) < 0` on suffixes (lexicographic). -/
 def sfxLt : Suffix → Suffix → Bool
